@@ -9,13 +9,17 @@
 
   * the reader `harness/cpyx.py` (line-structured splitting, `cdef`/cast rewriting, Python's
     `ast` on each function body; symbolic execution of `apply` once per spelling; explicit
-    control-flow paths only — exceptions raised inside callees (except: the first statement of a
-    `try … finally` without handlers raises, the `finally` runs, the exception propagates),
-    `op`-correlations between
-    successive `if` chains and loops beyond two iterations are not modelled; references kept in
-    C arrays / dicts / hash tables are followed through a ghost count per container, where the
-    loop "dereference every element once" is recognised by its shape and which slots of an array
-    were filled is not modelled);
+    control-flow paths, plus one exit per call that may raise a Python exception — classified from
+    the callee's name: not a C function declared `extern` / in the `.pxd` / cimported from libc,
+    not a `cdef` function of the module without `raise`/`assert` that calls only such functions —
+    per subscript of a Python object and per type test of a local declared `g: Function`, each taken
+    through the enclosing `finally` blocks and the `except` handlers that may match
+    (`refTraces_exceptionSafe`); `op`-correlations between successive `if` chains are not modelled;
+    loops are unrolled 0, 1, 2 times with every iteration checked to be reference-neutral; references
+    kept in C arrays / dicts / hash tables are followed through a ghost count per container, where
+    the loops "dereference every element once" (also: "every element that is not NULL"), "set every
+    slot to NULL" are recognised by their shape, and of the slots of an array only this is known:
+    a loop that stores into it ran to its end, or every slot was set to NULL before);
   * the hand-written meaning of the C functions in `DD/CWrap.lean` (`cConst`, `cUn`, `cBin`,
     `cTer`, `cQuantSig`, `producerKind`, `isRefFn`, `isDerefFn`);
   * error guards in `apply` (`self.manager != u.manager`, `r is NULL`, …; listed in
@@ -346,13 +350,23 @@ A path on which the wrapper tests `x.ref <= 0` while it holds a reference on `x`
 `deadAssertions_where`: these assertions would leak what the function holds if they fired).
 That every C array is also freed is a separate statement (`refTraces_arraysFreed`).
 
+* loops: every iteration of an unrolled loop (`iterBegin … iterEnd`) ends with each node held exactly
+  as often as when it began (references moved into a container aside): iterations are
+  reference-neutral, so 0, 1, 2 iterations stand for any number;
+* arrays: every slot is dereferenced (`derefAll`), or the array is handed to a call (`passC`), only
+  after a loop that stores into it ran to its end (`fillBegin … fillEnd`); the guarded loop
+  `if c[i] is not NULL: deref` (`derefNonNull`) also after `c[i] = NULL` for every slot (`nullInit`).
+
+THIS theorem speaks about the paths that end in `return` / an explicit `raise` (and, for the
+functions with a role, about all paths: an exit through an exception from a callee counts as a
+raising path).  The exits of ordinary functions through exceptions raised INSIDE callees are the
+subject of `refTraces_exceptionSafe`.
 Relative to the reader and to `producerKind` / `isRefFn` / `isDerefFn` in `DD/CWrap.lean`.
-Not modelled (hence not claimed): exceptions raised inside callees between a `ref` and its
-`deref` (also: `_compose` raising while the caller's recursion holds `p`), a handle that is
-rebound inside a loop while its node is still in a C array, which slots of an array were
-filled, and the interplay "`init` raised, `__dealloc__` still runs" (CUDD wrappers are guarded
-by `_ref == 0`; `sylvan.pyx` dereferences the zero-initialised node attribute).
-(`decide +kernel`: the `Decidable` instance is evaluated by the kernel only — about 550 paths.) -/
+Not modelled (hence not claimed): `MemoryError` other than through a call, exceptions from
+iteration / attribute access / comparison of Python objects, "every iteration of a fill stores
+once, into a different slot", and the interplay "`init` raised, `__dealloc__` still runs" (CUDD
+wrappers are guarded by `_ref == 0`; `sylvan.pyx` dereferences the zero-initialised node attribute).
+(`decide +kernel`: the `Decidable` instance is evaluated by the kernel only — about 980 paths.) -/
 theorem refTraces_balanced :
     (Gen.cRefTraces.all fun m =>
       methodOkF (Gen.cRefFieldBackends.contains m.backend) (localsOf m.backend) m) = true := by decide +kernel
@@ -399,35 +413,96 @@ def exitLeakKnown (m : CMethod) (p : CPath) : Bool :=
   knownExceptionLeaks.any fun k => k.backend == m.backend && k.fn == m.name && k.site == p.exitSite &&
     some k.held == exitSummary (localsOf m.backend) m p
 
+theorem exitLeak_spec (refused : List (String × Int)) (loc : List String) (m : CMethod) (p : CPath) :
+    exitLeak refused loc m p =
+      if pathBalanced loc m p then none else some ((exitSummary loc m p).getD refused) := by
+  unfold exitLeak pathBalanced runPath runPathC exitSummary
+  cases h : runPathS loc false m.returnsNode [] [] [] p.events with
+  | fin s cs => simp only []; split <;> simp_all
+  | stop v => simp only []; split <;> simp_all
+
+/-- what stands for the summary of an exit on which a `finally` / `except` block is refused -/
+def refusedMark : List (String × Int) := [("<refused>", 0)]
+
+/-- the exits on which an ordinary function still owns something, by the rules of `DD/CWrap.lean`:
+`(back end, function, site, what is still owned)`, first occurrences, in table order -/
+def exitLeaksLean : List (Backend × String × String × List (String × Int)) :=
+  ((Gen.cRefTraces.filter (·.role == .plain)).flatMap fun m =>
+    (m.paths.filter CPath.exceptional).filterMap fun p =>
+      (exitLeak refusedMark (localsOf m.backend) m p).map fun h => (m.backend, m.name, p.exitSite, h)).eraseDups
+
+/-- the two implementations of the rules — `DD/CWrap.lean` and its Python twin
+`harness/checks_cwrap.py`, which searches for the concrete function and line when an obligation
+fails — find the SAME exits that still own something, with the same summaries, on the regenerated
+table (whatever the source says now, a seeded change included).  This is the one place where the
+exceptional paths are run (`decide +kernel`); the theorems below work on the resulting list. -/
+theorem exitLeaks_twins_agree : exitLeaksLean = Gen.cExitLeaksPy := by decide +kernel
+
+def leakEntryKnown (x : Backend × String × String × List (String × Int)) : Bool :=
+  x.2.2.2 != refusedMark &&
+  knownExceptionLeaks.any fun k => k.backend == x.1 && k.fn == x.2.1 && k.site == x.2.2.1 && k.held == x.2.2.2
+
+/-- every exit that still owns something is a reviewed one -/
+theorem exitLeaks_all_known : exitLeaksLean.all leakEntryKnown = true := by
+  rw [exitLeaks_twins_agree]; decide
+
 /-- **C19 (references, exceptional exits).**  Every call in a followed function that may raise a
 Python exception — anything but a C function (declared `extern` / in the `.pxd` / cimported from
-libc or `cpython.mem`) and the module's own `cdef` functions that cannot raise; also a subscript of
-a Python object and the run-time type test of a local declared `g: Function` — gives an exit
-`raiseIn callee#k line` through the enclosing `finally` blocks and the `except` handlers that may
-match.  On every such exit of every ordinary function the references taken so far and not yet given
-back, wrapped, or parked in a container that a `finally` releases are balanced, exactly as on a
-`return` — EXCEPT on the exits listed in `knownExceptionLeaks` (DD/CWrapReviewed.lean), which are
-identified by function, site and what is still owned there (`exitSummary`), so that a new call
+libc or `cpython.mem`) and the module's own `cdef` functions that cannot raise (`Gen.cNoRaiseLocal`);
+also a subscript of a Python object and the run-time type test of a local declared `g: Function` —
+gives an exit `raiseIn callee#k line` through the enclosing `finally` blocks and the `except` handlers
+that may match.  On every such exit of every ordinary function the references taken so far and not
+yet given back, wrapped, or parked in a container that a `finally` releases are balanced, exactly as
+on a `return` — EXCEPT on the exits listed in `knownExceptionLeaks` (DD/CWrapReviewed.lean), which
+are identified by function, site and what is still owned there (`exitSummary`), so that a new call
 between a `ref` and its `deref`, or a new reference held across an old call, is refused.
 The functions with a role (`wrap`, `init`, `__dealloc__`, `incref`, `decref`) are covered by
 `refTraces_balanced`: an exceptional exit counts as a raising path (takes nothing, gives nothing
 back).  READ AGAINST THE STATEMENT OF C19 the listed exits are paths on which a temporary reference
-is not released: one of them is reachable with a wrong argument (`LeakReach.userError`:
-`cudd_zdd._c_compose` through `ZDD.let`), the others need a broken internal invariant or a
-`MemoryError` (`exceptionLeaks_reachable`). -/
+is not released; all of them need a broken internal invariant or a `MemoryError`
+(`exceptionLeaks_reachable`; the one that was reachable with a wrong argument, `cudd_zdd._c_compose`
+through `ZDD.let` — finding F21 — is repaired in the source and no longer listed). -/
 theorem refTraces_exceptionSafe :
-    (Gen.cRefTraces.all fun m => m.role != .plain || m.paths.all fun p =>
-      !p.exceptional || pathBalanced (localsOf m.backend) m p || exitLeakKnown m p) = true := by
-  decide +kernel
+    ∀ m ∈ Gen.cRefTraces, m.role = .plain → ∀ p ∈ m.paths, p.exceptional = true →
+      pathBalanced (localsOf m.backend) m p = true ∨ exitLeakKnown m p = true := by
+  intro m hm hrole p hp hexc
+  cases hb : pathBalanced (localsOf m.backend) m p with
+  | true => exact Or.inl rfl
+  | false =>
+    right
+    have hmem : (m.backend, m.name, p.exitSite,
+        (exitSummary (localsOf m.backend) m p).getD refusedMark) ∈ exitLeaksLean := by
+      unfold exitLeaksLean
+      rw [List.mem_eraseDups, List.mem_flatMap]
+      refine ⟨m, List.mem_filter.mpr ⟨hm, by simp [hrole]⟩, ?_⟩
+      rw [List.mem_filterMap]
+      refine ⟨p, List.mem_filter.mpr ⟨hp, hexc⟩, ?_⟩
+      rw [exitLeak_spec, hb]
+      rfl
+    have hk := List.all_eq_true.mp exitLeaks_all_known _ hmem
+    unfold leakEntryKnown at hk
+    rw [Bool.and_eq_true] at hk
+    obtain ⟨hne, hany⟩ := hk
+    obtain ⟨k, hkmem, hkp⟩ := List.any_eq_true.mp hany
+    unfold exitLeakKnown
+    refine List.any_eq_true.mpr ⟨k, hkmem, ?_⟩
+    simp only [Bool.and_eq_true, beq_iff_eq] at hkp ⊢
+    obtain ⟨⟨⟨h1, h2⟩, h3⟩, h4⟩ := hkp
+    refine ⟨⟨⟨h1, h2⟩, h3⟩, ?_⟩
+    cases hs : exitSummary (localsOf m.backend) m p with
+    | none =>
+      rw [hs] at hne
+      simp [Option.getD] at hne
+    | some h =>
+      rw [hs] at h4
+      simp only [Option.getD_some] at h4
+      rw [h4]
 
 /-- every reviewed exit is still there (the observation is about the CURRENT source: when a leak is
 repaired this fails until the entry is removed) -/
 theorem exceptionLeaks_present :
-    (knownExceptionLeaks.all fun k => Gen.cRefTraces.any fun m =>
-      m.backend == k.backend && m.name == k.fn && m.role == .plain && m.paths.any fun p =>
-        p.exceptional && p.exitSite == k.site && !pathBalanced (localsOf m.backend) m p &&
-        exitSummary (localsOf m.backend) m p == some k.held) = true := by
-  decide +kernel
+    (knownExceptionLeaks.all fun k => exitLeaksLean.contains (k.backend, k.fn, k.site, k.held)) = true := by
+  rw [exitLeaks_twins_agree]; decide
 
 /-- none of the reviewed exits can be reached by a caller with a wrong argument: what is left needs a
 broken internal invariant or a `MemoryError`.  (The one that could — `_c_compose` of cudd_zdd.pyx at
@@ -446,7 +521,13 @@ theorem exceptionalExits_covered :
     ((Gen.cRefTraces.map fun m => (m.paths.filter CPath.exceptional).length).sum ≥ 300) = true ∧
     (["_c_compose", "BDD._multi_compose", "BDD._swap"].all fun f => Gen.cRefTraces.any fun m =>
       m.name == f && m.paths.any fun p => p.exceptional &&
-        p.events.any fun e => match e with | .free .. => true | _ => false) = true := by
+        p.events.any fun e => match e with | .free .. => true | _ => false) = true ∧
+    -- `_c_compose` (cudd_zdd.pyx): an exit from INSIDE the loop that fills `vector` reaches the guarded
+    -- release of the `finally` block
+    (Gen.cRefTraces.any fun m => m.backend == .cuddZdd && m.name == "_c_compose" && m.paths.any fun p =>
+      p.exceptional && (p.events.any fun e => match e with | .fillBegin _ => true | _ => false) &&
+      !(p.events.any fun e => match e with | .fillEnd _ => true | _ => false) &&
+      p.events.any fun e => match e with | .derefNonNull .. => true | _ => false) = true := by
   decide +kernel
 
 /-- where a path relies on "a handle returned by `self.var(…)` keeps no node alive that the manager
@@ -684,5 +765,70 @@ example : runPath [] false false [] [.param 0 "u", .param 1 "v", .setField 0 "T"
 -- the followed functions are there
 example : ((Gen.cRefTraces.filter fun m => m.paths.any fun p => p.events.any CEv.isContEv).length ≥ 7) = true := by
   decide +kernel
+
+/-! #### exceptions from callees, array fills, loop iterations, dropped handles -/
+
+-- seeded C19m: a call that may raise between `Cudd_Ref` and `Cudd_RecursiveDerefZdd`
+example : runPath [] false false []
+    [.produce 0 "Cudd_zddIthVar" [], .ref 0 "Cudd_Ref", .raiseIn "self._add_var#0" 847] ≠ .ok := by decide
+example : exitSummary [] ⟨.cuddZdd, "ZDD.add_var", 812, .plain, false, []⟩
+    ⟨[.produce 0 "Cudd_zddIthVar" [], .ref 0 "Cudd_Ref", .raiseIn "self._add_var#0" 847]⟩
+    = some [("Cudd_zddIthVar", 1)] := by decide
+-- the same call after the release, or inside `try … finally: deref`, is fine
+example : runPath [] false false []
+    [.produce 0 "Cudd_zddIthVar" [], .ref 0 "Cudd_Ref", .deref 0 "Cudd_RecursiveDerefZdd",
+     .raiseIn "self._add_var#0" 849] = .ok := by decide
+-- the repaired `_c_compose` (F21): an exception in the second iteration of the fill loop; the
+-- `finally` block releases the slots that are not NULL and frees the array
+example : runPath ["_compose_root"] true false []
+    [.alloc 0 "PyMem_Malloc" "n", .nullInit 0 "n", .fillBegin 0, .iterBegin, .param 1 "g.node",
+     .ref 1 "cuddRef", .store 0 1, .iterEnd, .iterBegin, .derefNonNull 0 "Cudd_RecursiveDerefZdd" "n",
+     .free 0 "PyMem_Free", .raiseIn "typetest#1" 4139] = .ok := by decide
+-- … before the repair: the loop outside the `try`, nothing releases the array and what it holds
+example : exitSummary [] ⟨.cuddZdd, "_c_compose", 4109, .plain, false, []⟩
+    ⟨[.alloc 0 "PyMem_Malloc" "n", .fillBegin 0, .iterBegin, .param 1 "g.node", .ref 1 "cuddRef",
+      .store 0 1, .iterEnd, .iterBegin, .raiseIn "typetest#1" 4136]⟩
+    = some [("container array", 0), ("array not freed", 0)] := by decide
+-- seeded C19n: the fill loop inside the `try` WITHOUT the initialisation: every slot is read
+example : runPath [] false false []
+    [.alloc 0 "PyMem_Malloc" "n", .fillBegin 0, .iterBegin, .derefAll 0 "Cudd_RecursiveDerefZdd" "n",
+     .free 0 "PyMem_Free", .raiseIn "getitem#0" 4137]
+    = .bad "every slot of an array is dereferenced, but the loop that fills it was not completed (or there is none)" 0 := by
+  decide
+-- the guard alone does not help: the slots that were not written are not NULL
+example : runPath [] false false []
+    [.alloc 0 "PyMem_Malloc" "n", .fillBegin 0, .iterBegin, .derefNonNull 0 "Cudd_RecursiveDerefZdd" "n",
+     .free 0 "PyMem_Free", .raiseIn "getitem#0" 4137] ≠ .ok := by decide
+-- NULL-initialisation over another bound, or after a store
+example : runPath [] false false []
+    [.alloc 0 "PyMem_Malloc" "n", .nullInit 0 "n - 1", .free 0 "PyMem_Free", .retHandle] ≠ .ok := by decide
+example : runPath [] false false []
+    [.alloc 0 "PyMem_Malloc" "n", .param 1 "g.node", .ref 1 "cuddRef", .store 0 1, .nullInit 0 "n",
+     .free 0 "PyMem_Free", .retHandle] ≠ .ok := by decide
+-- an array handed to a C function after the fill was left by `break`
+example : runPath [] false false []
+    [.alloc 0 "PyMem_Malloc" "n", .fillBegin 0, .iterBegin, .param 1 "g.node", .store 0 1, .iterBreak,
+     .passC 0 "Cudd_bddVectorCompose", .free 0 "PyMem_Free", .retHandle] ≠ .ok := by decide
+-- a loop iteration that keeps a reference (visible at the end of the iteration, whatever follows)
+example : runPath [] false false []
+    [.param 0 "u", .iterBegin, .ref 0 "Cudd_Ref", .iterEnd, .deref 0 "Cudd_RecursiveDeref", .retHandle]
+    = .bad "a loop iteration ends holding (or having given away) a reference it did not hold when it began" 0 := by
+  decide
+example : runPath [] false false []
+    [.param 0 "u", .iterBegin, .ref 0 "Cudd_Ref", .deref 0 "Cudd_RecursiveDeref", .iterEnd, .retHandle] = .ok := by
+  decide
+-- seeded C19o: the handle of `x[0]` is dropped when `f` is rebound; `self.var` is exempt
+example : runPath [] true false []
+    [.alloc 0 "PyMem_Malloc" "n", .fillBegin 0, .iterBegin, .param 1 "f.node", .store 0 1, .iterEnd,
+     .iterBegin, .handleDrop 1 "self.add_expr", .param 2 "f.node", .store 0 2, .iterEnd, .fillEnd 0,
+     .passC 0 "Cudd_bddComputeCube", .produce 3 "Cudd_bddComputeCube" [], .free 0 "PyMem_Free",
+     .wrap 3, .retHandle]
+    = .bad "container with an unprotected element handed to Cudd_bddComputeCube after a node-creating call" 0 := by
+  decide
+example : runPath [] true false []
+    [.alloc 0 "PyMem_Malloc" "n", .fillBegin 0, .iterBegin, .param 1 "f.node", .store 0 1, .iterEnd,
+     .iterBegin, .handleDrop 1 "self.var", .param 2 "f.node", .store 0 2, .iterEnd, .fillEnd 0,
+     .passC 0 "Cudd_bddComputeCube", .produce 3 "Cudd_bddComputeCube" [], .free 0 "PyMem_Free",
+     .wrap 3, .retHandle] = .ok := by decide
 
 end DD
